@@ -88,6 +88,8 @@ static int c02_main(int argc,char **argv){
     if(!strcmp(tok[0],"case")){
       printf("== case %s\n",n>1?tok[1]:"?"); fflush(stdout);
       c2_clear();
+    }else if(!strcmp(tok[0],"live")){
+      vf_live("");
     }else if(!strcmp(tok[0],"new")){
       c2_clear(); vorbis_info_init(&c2vi); vorbis_comment_init(&c2vc); c2_have=1;
     }else if(!strcmp(tok[0],"hdr")&&n>=3&&c2_have){
